@@ -1784,7 +1784,7 @@ class NodeRequire:
                         __name__,
                         "modules/" + os.path.basename(modulefile).lower()
                     )
-                except FileNotFoundError:
+                except OSError:
                     data = None
                 if data:
                     modulesrc = data.decode("utf-8")
